@@ -6,6 +6,27 @@ import numpy as np
 KEY_DTYPES = ["int8", "int16", "int32", "int64", "uint8", "uint16", "uint32", "uint64"]
 
 
+def set_query_container(rng, op, qs, dt, field="q_dtype"):
+    """Choose how a vector of integers reaches the library: a Python list, or an array of ANY integer dtype that
+    can hold all its values (the key dtype, numpy's default int64, same width with the other signedness,
+    narrower, wider, ...)."""
+    n = len(qs)
+    fits64 = all(-2 ** 63 <= x < 2 ** 63 for x in qs)
+    cands = [d for d in KEY_DTYPES
+             if all(int(np.iinfo(d).min) <= x <= int(np.iinfo(d).max) for x in qs)]
+    r = rng.random()
+    if r < 0.25 and n > 0 and fits64:
+        op["as_list"] = True
+    elif r < 0.5 and dt in cands:
+        op[field] = dt
+    elif r < 0.75 and "int64" in cands:
+        pass                                   # numpy's default integer
+    elif cands:
+        op[field] = rng.choice(cands)
+    elif fits64:
+        op["as_list"] = True
+
+
 def _primes():
     return [2, 3, 5, 7, 11, 13, 17, 31, 61, 127]
 
@@ -160,9 +181,28 @@ class Hist:
                     op["values"] = ["arr", rng.choice(VDT[vkind]), vkind_values(rng, vkind, len(keys))]
             v = op["values"]
             model = {k: (v[1] if v[0] == "scalar" else v[2][j]) for j, k in enumerate(keys)}
+        prev = [x for x in self.info if self.info[x].get("arr_inputs") and self.info[x]["family"] == x]
+        if prev and cls != "HashSet" and rng.random() < 0.25:
+            # build this table from the very same key / value array objects as an earlier one
+            src = rng.choice(prev)
+            so = self.info[src]["arr_inputs"]
+            op["keys"], op["key_dtype"], op["values"] = list(so["keys"]), so["key_dtype"], so["values"]
+            op.pop("keys_as_list", None)
+            op.pop("value_dtype", None)
+            op["same_inputs_as"] = src
+            keys, dt = op["keys"], op["key_dtype"]
+            mod, mkind = gen_mod(rng, keys, dt)
+            op["mod"] = mod
+            if cls == "Counter" and not so["values"][1].startswith(("int", "uint")):
+                op["cls"] = cls = "HashTable"
+            vkind = so["vkind"]
+            model = {k: so["values"][2][j] for j, k in enumerate(keys)}
         self.ops.append(op)
         self.m[h] = model
         self.info[h] = {"cls": cls, "dt": dt, "vkind": vkind, "family": h, "mod": mkind, "mag": mag,
+                        "arr_inputs": ({"keys": keys, "key_dtype": dt, "values": op["values"], "vkind": vkind}
+                                       if cls != "HashSet" and op.get("values", [""])[0] == "arr"
+                                       and not op.get("keys_as_list") else None),
                         "scalar_state": cls == "HashSet" or op["values"][0] == "scalar",
                         "no_value_dtype": cls == "HashTable" and op.get("values", [""])[0] == "scalar"
                         and not op.get("value_dtype")}
@@ -230,20 +270,7 @@ class Hist:
         rng = self.rng
         dt = self.info[h]["dt"]
         qs = op.get("keys", op.get("batch", []))
-        n = len(qs)
-        ki = np.iinfo(dt)
-        wide = any(not (int(ki.min) <= x <= int(ki.max)) for x in qs)
-        fits64 = all(-2 ** 63 <= x < 2 ** 63 for x in qs)
-        r = rng.random()
-        if r < 0.25 and n > 0 and fits64:
-            op["as_list"] = True
-        elif r < 0.55 and not wide:
-            op["q_dtype"] = dt
-        elif r < 0.7 and all(x >= 0 for x in qs):
-            op["q_dtype"] = "uint64"
-        elif not fits64:
-            op["q_dtype"] = "uint64" if all(x >= 0 for x in qs) else dt
-        # else: int64 (numpy's default integer)
+        set_query_container(rng, op, qs, dt)
 
     def pick(self, pred=lambda i: True):
         hs = [h for h in self.m if pred(self.info[h])]
@@ -331,11 +358,7 @@ class Hist:
                     if a is not None:
                         batch.append(a)
             op = {"op": "count", "h": h, "batch": batch}
-            ki = np.iinfo(self.info[h]["dt"])
-            if all(int(ki.min) <= x <= int(ki.max) for x in batch) and rng.random() < 0.5:
-                op["b_dtype"] = self.info[h]["dt"]
-            elif batch and rng.random() < 0.4:
-                op["as_list"] = True
+            set_query_container(rng, op, batch, self.info[h]["dt"], field="b_dtype")
             self.ops.append(op)
             for x in batch:
                 if x in self.m[h]:
@@ -456,7 +479,10 @@ def gen_stream(rng):
     elif r < 0.6:
         init = ["scalar", rng.randint(1, 50)]
     else:
-        init = ["arr", "int64", [rng.randint(0, 50) for _ in keys]]
+        init = ["arr", rng.choice(["int64", "int64", "int32", "int16", "uint64", "uint32", "uint16"]),
+                [rng.randint(0, 50) for _ in keys]]
+    value_dtype = rng.choice(["int64", "int32", "uint64", "uint32"]) if init[0] == "scalar" and rng.random() < 0.25 \
+        else None
     n = rng.choice([0, 1, 3, 10, 40, 120, 300]) if rng.random() < 0.5 else rng.randint(0, 60)
     h = Hist(rng, {"key_dtypes": [dt], "absent_rate": 0, "weights": {}, "ops": [], "n_ops": 0, "faults": False})
     h.m["h0"] = {k: 0 for k in keys}
@@ -489,7 +515,7 @@ def gen_stream(rng):
         m, kind = gen_mod(rng, keys, dt)
         mods.append([m, kind])
     return {"keys": keys, "key_dtype": dt, "init": init, "stream": stream, "mods": mods, "mag": mag,
-            "noise_rate": noise_rate, "wide_rate": wide_rate}
+            "noise_rate": noise_rate, "wide_rate": wide_rate, "value_dtype": value_dtype}
 
 
 DELIVERY_KINDS = ["one_batch", "one_by_one", "fragments", "permuted", "with_empties", "with_noise", "duplicated",
@@ -504,20 +530,22 @@ def deliver(rng, wl, kind, mod):
     stream = list(wl["stream"])
     new = {"op": "new", "cls": "Counter", "dst": "h0", "keys": keys, "key_dtype": dt, "mod": mod,
            "values": wl["init"]}
-    if wl["init"] == ["scalar", 0] and rng.random() < 0.5:
+    if wl.get("value_dtype"):
+        new["value_dtype"] = wl["value_dtype"]
+    elif wl["init"] == ["scalar", 0] and rng.random() < 0.5:
         new["default_init"] = True
     ops = [new]
+    if wl["init"][0] == "arr" and rng.random() < 0.3:
+        # a second counter built from the very same key and initial-value array objects: it sees no samples, so
+        # it must keep reporting the initial values whatever the first one counts
+        ops.append({"op": "new", "cls": "Counter", "dst": "h9", "keys": keys, "key_dtype": dt,
+                    "mod": rng.choice([mod, None]), "values": wl["init"], "same_inputs_as": "h0"})
 
     info = np.iinfo(dt)
 
     def cnt(batch):
         op = {"op": "count", "h": "h0", "batch": list(batch)}
-        wide = any(not (int(info.min) <= x <= int(info.max)) for x in batch)
-        r = rng.random()
-        if r < 0.25:
-            op["as_list"] = True
-        elif r < 0.6 and not wide:
-            op["b_dtype"] = dt
+        set_query_container(rng, op, list(batch), dt, field="b_dtype")
         ops.append(op)
 
     def fragments(seq):
@@ -574,7 +602,8 @@ def deliver(rng, wl, kind, mod):
             elif r < 0.5:
                 ops.append({"op": "repr", "h": "h0"})
             elif r < 0.65 and not derived:
-                ops.append({"op": "derive", "f": "zeros_like", "src": "h0", "dst": "h1"})
+                ops.append({"op": "derive", "f": rng.choice(["zeros_like", "zeros_like", "ones_like"]), "src": "h0",
+                            "dst": "h1"})
                 derived = True
             elif r < 0.8 and derived:
                 ops.append({"op": "count", "h": "h1", "batch": list(f)})
